@@ -97,7 +97,7 @@ def ntAnn : Ann := .clsF 9 [20, 21] [.cls 2, .cls 3]
 def ntVal : Val := .ntup 10 [20, 21] [.lit (.int 1), .lit (.str [97])]
 /-- `@pedantic def f(a: NT1) -> int` -/
 def witnessNT : Fn :=
-  { name := "f", source := "@pedantic\ndef f(a: NT1) -> int:\n    return 1\n", qualDotted := false,
+  { name := "f", flags := flagsOfSource "f" "@pedantic\ndef f(a: NT1) -> int:\n    return 1\n", qualDotted := false,
     params := [{ name := 1, kind := .posOrKw, ann := some ntAnn, dflt := none }], selfName := 0,
     firstIsSelf := false, isBound := false, retAnn := some (.cls 2), genRet := .notGenType, flavour := .sync, mode := .pedantic }
 /-- inherited C01 region `namedtupleStructural`: `f(a=NT2(1, 'a'))` reaches the body although NT2 is unrelated to NT1 -/
@@ -113,7 +113,7 @@ theorem ArgsGuard_full_is_false : ¬ ArgsGuard_full := by
 -- non-vacuity: a defaulted parameter with a bad declared default, omitted in the call: `def g(a: int, b: str = 5)`, `g(a=1)`
 def witnessDefault : Fn :=
   { witnessNT with
-    source := "@pedantic\ndef g(a: int, b: str = 5) -> int:\n    return 1\n"
+    flags := flagsOfSource "g" "@pedantic\ndef g(a: int, b: str = 5) -> int:\n    return 1\n"
     name := "g"
     params := [{ name := 1, kind := .posOrKw, ann := some (.cls 2), dflt := none },
                { name := 2, kind := .posOrKw, ann := some (.cls 3), dflt := some (.lit (.int 5)) }] }
